@@ -67,7 +67,13 @@ pub fn judge_bytes(bytes: &[u8], ctx: &mut Ctx, case: &dyn Fn() -> Value, cli_sa
             ))
         }
     };
-    if got != want {
+    // strings may be listed verbatim (as the pinned tree does) or with every special character
+    // escaped; either way they must read back to the file's strings
+    let escaped_ok = got != want && listing::parse_escaped(&text).map(|g| g == want).unwrap_or(false);
+    if escaped_ok {
+        ctx.label("listing-escapes-its-strings");
+    }
+    if got != want && !escaped_ok {
         return ctx.settle(Violation::new(
             "listing-unfaithful",
             format!("the listing denotes a different program than the file:\n{}", diff_models(&want, &got)),
